@@ -464,6 +464,35 @@ impl Rw {
                         return Some(out);
                     }
                 }
+                // (d'),(e') for (a, b) in V.iter_mut().zip(J.row_iter() | W.iter()) { B }: the `for` spelling of (d),(e)
+                if n == ["iter_mut", "zip"] {
+                    let (other, ol) = unchain(links[1].args.first()?);
+                    let on = names(&ol);
+                    let a = pat_ident(&ap)?;
+                    let mut body = body;
+                    let idx = syn::Ident::new("__i", Span::call_site());
+                    let mut de = DerefElem { name: a, vec: base.clone(), idx: idx.clone() };
+                    for s in body.iter_mut() {
+                        de.visit_stmt_mut(s);
+                    }
+                    let (bound, bind, rule): (Expr, Stmt, &str) = if on == ["row_iter"] {
+                        (parse_quote!(__vp_min(#base.len(), #other.nrows())), parse_quote!(let #bp = #other.row(__i);), "X4d")
+                    } else if on == ["iter"] {
+                        (parse_quote!(__vp_min(#base.len(), #other.len())), parse_quote!(let #bp = #other.get_elem(__i);), "X4e")
+                    } else {
+                        return None;
+                    };
+                    let mut out: Vec<Stmt> = vec![];
+                    out.push(parse_quote!(let __n = #bound;));
+                    out.push(parse_quote!(let mut __i: usize = 0;));
+                    out.push(parse_quote!(while __i < __n {
+                        #bind
+                        #(#body)*
+                        __i = __vp_succ(__i);
+                    }));
+                    self.note(rule, line);
+                    return Some(out);
+                }
                 // (f) for (idx, val) in V.iter_mut().enumerate() { B }
                 if n == ["iter_mut", "enumerate"] {
                     let k = pat_ident(&ap)?;
@@ -1446,6 +1475,14 @@ impl VisitMut for Pass {
 
 impl Pass {
     fn insert_loop_end(&mut self, body: &mut Block, n: usize) {
+        // `loop_begin N`: right after the loop specification, before the first statement of the body
+        for (k, (anchor, _)) in self.proofs.iter().enumerate() {
+            if !self.used_proofs[k] && anchor == &format!("loop_begin {}", n) {
+                self.used_proofs[k] = true;
+                let at = if body.stmts.is_empty() { 0 } else { 1 };
+                body.stmts.insert(at, Self::proof_stmt(k));
+            }
+        }
         for (k, (anchor, _)) in self.proofs.iter().enumerate() {
             if !self.used_proofs[k] && anchor == &format!("loop_end {}", n) {
                 self.used_proofs[k] = true;
